@@ -225,7 +225,7 @@ ROUND6 = {
     "C16": "the options handed over as new / kept dict or GenerationOptions object, reused across calls of different shapes.",
     "C15": "prompt overflow (max_length) of one conversation between two turns of another, rail-name-list options on a request in flight next to a request without options.",
     "C19": "client cancellations of single requests as part of the schedule (only the other requests are asserted).",
-    "C17": "generated values that are container literals with an unholdable element in any slot incl. dict keys.",
+    "C17": "generated values that are container literals with an unholdable element in any slot incl. dict keys; lone surrogates and unclosed / reversed <think> tokens as plain message texts.",
 }
 
 TITLES = {}
